@@ -194,6 +194,10 @@ def nat_conformance(h):
         }
         aggs = ['sum', 'avg', 'median', 'max', 'min', 'first', 'last', 'count', 'set', 'array', 'counters', 'any']
         names = h.rng.sample(sorted(steps_pool), h.rng.randint(0, 3))
+        if 'set_type' in names and 'rename-swap' in names and names.index('rename-swap') < names.index('set_type'):
+            # after the swap the field called `i` holds the texts: declaring it a number is the caller's type error, and set_type
+            # rightly refuses the rows (not a well-typed pipeline; a false alarm of this oracle in the thorough tier)
+            continue
         steps = [steps_pool[x]() for x in names]
         tail = h.rng.choice(['none', 'join', 'join_self', 'concat'])
         agg = h.rng.choice(aggs)
